@@ -169,8 +169,11 @@ def _names(body, du, op, depth=0, acc=None):
 def balance(chk, w, fp, succ):
     body = fp.body
     du = defuse.DefUse(body)
+    # `==` resolves to the derived <Zatoshis as PartialEq>::eq, `!=` to the trait's provided `ne`
     eqs = [(bb, t) for bb, t in body.calls() if t.callee.indirect is None and
-           re.search(r"Zatoshis as core::cmp::PartialEq>::(eq|ne)$", t.callee.target_p())]
+           (re.search(r"Zatoshis as core::cmp::PartialEq>::(eq|ne)$", t.callee.target_p()) or
+            (re.search(r"core::cmp::PartialEq::(eq|ne)$", t.callee.target_p()) and
+             "Zatoshis" in (t.callee.self_ty or t.callee.full or "")))]
     final = None
     for bb, t in eqs:
         ns = [_names(body, du, a) for a in t.args]
